@@ -1,6 +1,6 @@
 """A small generic schedule runner over a real oracle: random tuners ask / report / end; every random
 choice comes from the PRNG passed in, so two runs with equal answers make equal choices."""
-from harness.common import canon_vals, quiet
+from harness.common import canon_vals, quiet, worker_copy
 
 OUTCOMES = ["C", "C", "C", "NAN", "INV", "FAIL"]
 
@@ -32,7 +32,7 @@ def run_schedule(o, R, steps=60, ntuners=None, score_of=None, outcomes=OUTCOMES,
         if discover:
             discover(R, t)
         try:
-            quiet(o.end_trial, t)
+            quiet(o.end_trial, worker_copy(R, t))
         except RuntimeError as e:
             if "consecutive" not in str(e):
                 raise
